@@ -108,7 +108,7 @@ func genC15(t *Tape) *c15Scenario {
 		sc.Behaviour = 1 + t.Choose(nTSABehaviours-1)
 	}
 	if t.Bool(15) {
-		k := []int{FConnErr, FStall, FStatus, FEmpty, FTruncate, FBodyErr, FBodyStall, FGarbage, FWrongCT, FOversize, FRedirect}[t.Choose(11)]
+		k := []int{FConnErr, FStall, FStatus, FEmpty, FTruncate, FBodyErr, FBodyStall, FGarbage, FWrongCT, FOversize, FRedirect, FEndless}[t.Choose(12)]
 		sc.Fault = Fault{Kind: k}
 		switch k {
 		case FStatus:
